@@ -658,7 +658,47 @@ fn c05(args: &Args, rep: &mut Report, w: &Watch) {
             let t = g.ty(bt, true);
             (defs, s, t)
         };
-        let mode = rng.below(13);
+        let mode = rng.below(15);
+        if mode >= 13 {
+            // cyclic twins: a reference cycle of 2-4 named object types and a copy of it with one leaf
+            // edited; S mentions two members of the cycle, T their twins (in one object or split over
+            // a union). Answers below the recursion cut have to be provisional.
+            let k = 2 + rng.below(3);
+            let leafs = [Runtype::string(), Runtype::number(), Runtype::null(), tgen::lit_s("a"), tgen::lit_n(1), Runtype::boolean()];
+            let leaf_of: Vec<Runtype> = (0..k).map(|_| rng.pick(&leafs).clone()).collect();
+            let edited = rng.below(k);
+            let mut twin_leaf = leaf_of.clone();
+            twin_leaf[edited] = rng.pick(&leafs).clone();
+            let nullable_at = rng.below(k);
+            let optional = rng.chance(1, 2);
+            let mk = |prefix: &str, leaf: &Vec<Runtype>| -> Vec<NamedSchema> {
+                (0..k)
+                    .map(|i| {
+                        let next = Runtype::ref_(tgen::uuid(&format!("{}{}", prefix, (i + 1) % k)));
+                        let link = if i == nullable_at {
+                            if optional { ("n", next, true) } else { ("n", tgen::raw_any_of(vec![next, Runtype::null()]), false) }
+                        } else {
+                            ("n", next, false)
+                        };
+                        NamedSchema { name: tgen::uuid(&format!("{}{}", prefix, i)), schema: tgen::obj(vec![link, ("v", leaf[i].clone(), false)], None) }
+                    })
+                    .collect()
+            };
+            let mut defs2 = mk("N", &leaf_of);
+            defs2.extend(mk("M", &twin_leaf));
+            let a = rng.below(k);
+            let b = (a + 1 + rng.below(k - 1)) % k;
+            let r = |p: &str, i: usize| Runtype::ref_(tgen::uuid(&format!("{}{}", p, i)));
+            let s_ty = tgen::obj(vec![("p", r("N", a), false), ("q", r("N", b), false)], None);
+            let t_ty = match rng.below(3) {
+                0 => tgen::obj(vec![("p", r("M", a), false), ("q", r("M", b), false)], None),
+                1 => tgen::raw_any_of(vec![tgen::obj(vec![("p", r("M", a), false)], None), tgen::obj(vec![("q", r("M", b), false)], None)]),
+                _ => tgen::raw_any_of(vec![tgen::obj(vec![("p", r("M", a), false), ("q", r("N", b), false)], None), tgen::obj(vec![("q", r("M", b), false)], None)]),
+            };
+            let c = Case { s: s_ty, t: t_ty, defs: defs2, t_first: rng.chance(1, 2) };
+            c05_one(rep, w, &c, cap, "cyclic-twins");
+            continue;
+        }
         let (s, t, stream) = match mode {
             10..=12 => {
                 // covering problems: S is a product of small literal sets (tuple slots or object
